@@ -1,32 +1,53 @@
 (* EditProofsEx2.v -- C11: concrete instances of the hypotheses of the content / resource theorems (non-vacuity). *)
 From LV Require Import Base.Bytes Model.Obj Model.DocQ Model.PageTree Model.Traverse Model.Edit Model.StreamFilt
   Spec.AbstractDoc Proofs.RenumberProofsMap Proofs.EditProofs Proofs.EditProofsEx Proofs.EditProofsContent
-  Proofs.EditProofsContent2 Proofs.EditProofsDecode Proofs.EditProofsRes Proofs.FilterProofsDict.
+  Proofs.EditProofsContent2 Proofs.EditProofsDecode Proofs.EditProofsRes Proofs.FilterProofsDict Proofs.EditProofsKF.
 
-Definition ex_page3 : dict := [(K_Type, OName K_Page); (K_Parent, ORef 2 0); (K_Contents, ORef 5 0)]%N.
+(* page 3 behind a reference object (9 0 obj 3 0 R), its Contents an indirect array (8 0 obj [5 0 R]) of the stream 5 that no
+   other page shows: the shapes the repaired change_page_content / add_page_contents resolve *)
+Definition ex_page3 : dict := [(K_Type, OName K_Page); (K_Parent, ORef 2 0); (K_Contents, ORef 8 0)]%N.
+Definition ex_doc_solo : doc :=
+  {| d_version := d_version ex_doc; d_binary_mark := []; d_trailer := d_trailer ex_doc;
+     d_objects := insert (insert (insert (insert (d_objects ex_doc) (3, 0)%N (ODict ex_page3))
+                                         (4, 0)%N (ODict [(K_Type, OName K_Page); (K_Parent, ORef 2 0)]))
+                                 (8, 0)%N (OArr [ORef 5 0]))
+                         (9, 0)%N (ORef 3 0);
+     d_max_id := 9 |}.
 
-(* change_page_content on page 3 of ex_doc (Contents = 5 0 R, a stream): every hypothesis of cpc_shows_new_content holds
-   for the content "BT ET" under the identity codec, and the conclusion is what the model computes *)
+(* change_page_content on that page: every hypothesis of cpc_shows_new_content holds
+   for the content "BT ET" under the identity codec; the stream 5 is rewritten in place and the page shows the new content *)
 Lemma cpc_example :
-  doc_wf ex_doc /\ alloc_ok ex_doc /\ (d_max_id ex_doc < Renumber.U32_MAX)%N /\
-  (forall id sd c0, lookup (d_objects ex_doc) id = Some (OStream sd c0) -> dict_wf sd) /\
+  alloc_ok ex_doc_solo /\ (d_max_id ex_doc_solo < Renumber.U32_MAX)%N /\
+  (forall id sd c0, lookup (d_objects ex_doc_solo) id = Some (OStream sd c0) -> dict_wf sd) /\
   o_inflate O0 (o_deflate O0 (bs "BT ET")) = bs "BT ET" /\ o_deflate O0 (bs "BT ET") <> [] /\
-  lookup (d_objects ex_doc) (3, 0)%N = Some (ODict ex_page3) /\ plain_contents (d_objects ex_doc) ex_page3 /\
-  dict_get ex_page3 K_Contents = Some (ORef 5 0) /\
-  page_content (decode_c09 O0) (d_objects (fst (change_page_content O0 ex_doc (3, 0)%N (bs "BT ET")))) (3, 0)%N = Some (bs "BT ET").
+  get_dictionary (d_objects ex_doc_solo) (3, 0)%N = Some ex_page3 /\
+  dict_get ex_page3 K_Contents = Some (ORef 8 0) /\
+  single_stream (d_objects ex_doc_solo) (ORef 8 0) = Some (5, 0)%N /\
+  is_content_stream_of_another_page ex_doc_solo (5, 0)%N (3, 0)%N = false /\
+  let d' := fst (change_page_content O0 ex_doc_solo (3, 0)%N (bs "BT ET")) in
+  page_content (decode_c09 O0) (d_objects d') (3, 0)%N = Some (bs "BT ET") /\
+  lookup (d_objects d') (5, 0)%N = Some (OStream [(K_Length, OInt 5)] (bs "BT ET")) /\ d_max_id d' = 9%N.
 Proof.
-  split; [apply doc_wfb_ok; vm_compute; reflexivity|].
   split; [apply alloc_okb_ok; vm_compute; reflexivity|].
   split; [vm_compute; reflexivity|].
   split.
-  { intros [i g] sd c0. cbn [ex_doc d_objects lookup].
+  { intros [i g] sd c0. unfold ex_doc_solo. cbn [d_objects]. rewrite !lookup_insert. cbn [ex_doc d_objects lookup].
     repeat (match goal with |- context [oid_eqb ?a (i, g)] => destruct (oid_eqb a (i, g)) end; try discriminate).
     intro H; inversion H; subst. unfold dict_wf, keys. cbn. repeat constructor. intros []. }
   split; [reflexivity|]. split; [discriminate|].
-  split; [reflexivity|].
-  split; [exists 5%N, 0%N, [(K_Length, OInt 3)], (bs "q Q"); split; reflexivity|].
-  split; [reflexivity|]. vm_compute. reflexivity.
+  split; [vm_compute; reflexivity|]. split; [reflexivity|]. split; [vm_compute; reflexivity|]. split; [vm_compute; reflexivity|].
+  cbv zeta. repeat split; vm_compute; reflexivity.
 Qed.
+
+(* add_page_contents on the same page, named through the reference object 9: the hypothesis of add_page_contents_content (a defined content) holds, and the model
+   computes the conclusion *)
+Lemma apc_example :
+  page_content decode0 (d_objects ex_doc_solo) (9, 0)%N = Some (bs "q Q") /\
+  let d' := fst (add_page_contents ex_doc_solo (9, 0)%N (bs "BT ET")) in
+  page_content decode0 (d_objects d') (9, 0)%N = Some (bs "q Q" ++ bs "BT ET") /\
+  page_content decode0 (d_objects d') (3, 0)%N = Some (bs "q Q" ++ bs "BT ET") /\
+  page_content decode0 (d_objects d') (4, 0)%N = Some [].
+Proof. cbv zeta. repeat split; vm_compute; reflexivity. Qed.
 
 (* add_xobject on page 3 (which only inherits Resources): the XObject category is not indirect *)
 Lemma res_example : ~ category_indirect ex_doc (3, 0)%N K_XObject.
